@@ -351,6 +351,14 @@ func (s *queueSys) Apply(op sxOp) string {
 		}
 		s.model = append(append([]busItem{}, s.model[:k]...), s.model[k+1:]...)
 	}
+	// complete state comparison on every edge: a full, non-destructive iteration
+	var content []busItem
+	for e := range s.impl.Iterator() {
+		content = append(content, s.impl.Value(e))
+	}
+	if fmt.Sprint(content) != fmt.Sprint(s.model) {
+		return fmt.Sprintf("after %s the queue holds %v, model %v", op, content, s.model)
+	}
 	if s.impl.Length() != len(s.model) || s.impl.IsFull() != (len(s.model) >= s.length) {
 		return fmt.Sprintf("Length=%d IsFull=%v, model len %d capacity %d", s.impl.Length(), s.impl.IsFull(), len(s.model), s.length)
 	}
